@@ -2,6 +2,7 @@ package main
 
 import (
 	"fmt"
+	"strings"
 
 	"golang.org/x/tools/go/ssa"
 )
@@ -55,6 +56,32 @@ func ruleChunkAccounting(c *Check, p *Program, rule string) {
 		if fn == nil {
 			continue
 		}
+		// the loop over the caller's buffer may have been moved into a method of its own (Write: dispatch, then
+		// `return w.consume(buf)`): the function analysed is the one of the family that loops and has the
+		// (count, error) results and a byte-slice parameter
+		hasLoop := func(f *ssa.Function) bool {
+			for _, b := range f.Blocks {
+				for _, s := range b.Succs {
+					if s.Index <= b.Index && s.Dominates(b) {
+						return true
+					}
+				}
+			}
+			return false
+		}
+		if !hasLoop(fn) {
+			for _, g := range deepFuncs(fn, 2) {
+				res := g.Signature.Results()
+				if g == fn || g.Parent() != nil || !hasLoop(g) || res.Len() != 2 || !isErrorType(res.At(1).Type()) || len(g.Params) < 2 || !isSliceType(g.Params[1].Type()) {
+					continue
+				}
+				if recvTypeName(g) == sp.owner {
+					c.Funcs[fname(g)] = true
+					fn = g
+					break
+				}
+			}
+		}
 		recv, buf := fn.Params[0], fn.Params[1]
 		fIdx, fData := sp.owner+"."+sp.idx, sp.owner+"."+sp.data
 		tracked := map[string]bool{fIdx: true, fData: true}
@@ -90,7 +117,18 @@ func ruleChunkAccounting(c *Check, p *Program, rule string) {
 			return h1 && h2
 		}
 		hooks := goHooks{
-			inlineOnly: func(g *goProg, a *AbsState, call *ssa.Call, f *ssa.Function) bool { return pureCallee(f) },
+			// pure accessors, and small helpers of the same object that touch the cursor or the buffer (they are part
+			// of the arithmetic); the block-level writer/reader and init are not analysed in place
+			inlineOnly: func(g *goProg, a *AbsState, call *ssa.Call, f *ssa.Function) bool {
+				if pureCallee(f) {
+					return true
+				}
+				switch shortFn(f) {
+				case "Writer.write", "Writer.init", "Reader.read", "Reader.init", "Writer.Flush":
+					return false
+				}
+				return recvTypeName(f) == sp.owner && len(f.Blocks) <= 12 && storesFieldsDeep(f, tracked, 1, map[*ssa.Function]bool{})
+			},
 			// the object invariant 0 <= cursor <= len(buffer) (established by init: cursor 0; every store in this
 			// function is checked against it below) holds whenever the fields are read afresh
 			freshField: func(g *goProg, a *AbsState, fk string) {
@@ -152,8 +190,12 @@ func ruleChunkAccounting(c *Check, p *Program, rule string) {
 					return
 				}
 				newV := g.val(a, st.Val)
-				old, hasOld := a.vals[key(g, sp.idx)]
-				dl, hasLen := a.vals[key(g, sp.data)+".len"]
+				// keys of the cells as seen from the function the store is in (an inlined helper of the object
+				// works on the caller's cells)
+				kIdx := g.fieldCell(st.Addr)
+				kData := strings.TrimSuffix(kIdx, sp.idx) + sp.data
+				old, hasOld := a.vals[kIdx]
+				dl, hasLen := a.vals[kData+".len"]
 				site := fmt.Sprintf("%s#cursor-store#%d", sp.fn, g.ordinal[in])
 				pos := g.prog.InstrPos(in)
 				okS, why := false, ""
@@ -165,6 +207,10 @@ func ruleChunkAccounting(c *Check, p *Program, rule string) {
 					// full buffer handed over)
 					_, fresh := a.vals["$freshbuf"]
 					okS = fresh || (hasOld && hasLen && a.st.entailsEq(old, dl))
+					if !okS && hasLen && hasLC(a) {
+						// the rewind replaces the advance: the copy that started at the cursor ended at the end of the buffer
+						okS = a.st.entailsEq(a.vals["$lc.rel"].Add(a.vals["$lc.n"]), dl)
+					}
 					why = "the cursor is rewound to 0 while it may not be at the end of the block buffer: bytes between the cursor and the end are dropped or emitted again"
 					if !hasOld || !hasLen {
 						why = "the cursor or the buffer length is unknown at the rewind"
@@ -207,7 +253,7 @@ func ruleChunkAccounting(c *Check, p *Program, rule string) {
 						errPath = true
 					}
 				}
-				if sp.owner == "Writer" && !errPath && !stateDispatchReturn(ret) {
+				if sp.owner == "Writer" && !errPath && !stateDispatchReturn(ret) && afterLoopHead(ret) {
 					g.coll.check("chunk", sp.fn+"#accepts-all", g.prog.InstrPos(ret), "a return of Write without error reports every byte of buf as accepted (n = len(buf))", a.st.entailsEq(n, blen), func() string {
 						return "n = " + n.Str(g.tab) + " may differ from len(buf) on a return that carries no error: bytes are dropped or counted twice"
 					})
@@ -312,15 +358,17 @@ func ruleReadContract(c *Check, p *Program, rule string) {
 	coll := newCollector()
 	buf := fn.Params[1]
 	hooks := goHooks{
-		inlineOnly: func(g *goProg, a *AbsState, call *ssa.Call, f *ssa.Function) bool { return pureCallee(f) },
+		inlineOnly: func(g *goProg, a *AbsState, call *ssa.Call, f *ssa.Function) bool {
+			return pureCallee(f) || (recvTypeName(f) == "Reader" && f.Pkg == fn.Pkg && shortFn(f) != "Reader.init")
+		},
 		afterCall: func(g *goProg, a *AbsState, call *ssa.Call, f *ssa.Function) {
-			if f != un || pDst == nil {
+			if f == nil || pDst == nil || !(f == un || forwardTarget(f) == un) {
 				return
 			}
 			// the returned slice is a re-slice of the destination argument
 			idx := -1
-			for i, prm := range un.Params {
-				if prm == pDst {
+			for i, prm := range f.Params {
+				if prm.Name() == pDst.Name() {
 					idx = i
 				}
 			}
@@ -372,3 +420,17 @@ func stateDispatchReturn(ret *ssa.Return) bool {
 }
 
 var _ = fmt.Sprintf
+
+// afterLoopHead: the return is dominated by the head of a loop of its function (it is taken once the loop over the
+// caller's buffer has been entered, not in the preamble of the method).
+func afterLoopHead(ret *ssa.Return) bool {
+	fn := ret.Parent()
+	for _, b := range fn.Blocks {
+		for _, s := range b.Succs {
+			if s.Index <= b.Index && s.Dominates(b) && s.Dominates(ret.Block()) {
+				return true
+			}
+		}
+	}
+	return false
+}
